@@ -66,9 +66,12 @@ class StreamCore:
         if 'flip' in self.faults:
             k, b = self.faults['flip']
             if 0 <= k < len(self.data):
-                d = bytearray(self.data)
-                d[k] = b
-                self.data = bytes(d) if isinstance(data, bytes) else data
+                if isinstance(self.data, str):
+                    self.data = self.data[:k] + chr(b) + self.data[k + 1:]
+                else:
+                    d = bytearray(self.data)
+                    d[k] = b
+                    self.data = bytes(d)
         self.limit = len(self.data)
         if 'eof' in self.faults:
             self.limit = min(self.limit, self.faults['eof'])
